@@ -126,12 +126,16 @@ fn layout_check(ctx: &mut Ctx) {
 }
 
 pub fn one(ctx: &mut Ctx, rng: &mut Rng, x: &[u8], max_ops: usize) {
+    one_with(ctx, rng, x, max_ops, None)
+}
+
+pub fn one_with(ctx: &mut Ctx, rng: &mut Rng, x: &[u8], max_ops: usize, first: Option<usize>) {
     let mut pp1 = match lib_parse(x) {
         Ok(Ok(pp)) => pp,
         _ => return,
     };
     // native execution doubles as generator; a native panic is C08/C09's business
-    let sc = match guarded(u64::MAX / 2, || generate(rng, &mut pp1, max_ops)) {
+    let sc = match guarded(u64::MAX / 2, || generate_with(rng, &mut pp1, max_ops, first)) {
         Ok(s) => s,
         Err(_) => {
             ctx.count("native_panic_skipped");
@@ -250,6 +254,25 @@ pub fn run(ctx: &mut Ctx) {
         let v = gen_valid(&mut rng, &cfg);
         let max_ops = if ctx.tier == "miri" { 5 } else { 10 };
         one(ctx, &mut rng, &v.bytes, max_ops);
+    }
+    // names at the very top of what the parser accepts (255 wire bytes = 253 text characters + terminator in a
+    // 256-byte buffer), as question name and as owner names
+    let k = ctx.scaled(if ctx.tier == "thorough" { 40_000 } else if ctx.tier == "miri" { 2 } else { 1_600 });
+    for case in ctx.phase("longest-names", k) {
+        ctx.begin_case(case);
+        let mut rng = Rng::for_case(ctx.seed, "c15-long", 0, case);
+        let w = *rng.pick(&[255usize, 255, 254, 253, 252]);
+        let qn = if rng.chance(1, 2) { crate::gen::valid::name_of_wire_len(&mut rng, w) } else { Name((0..(w - 1) / 2).map(|_| vec![*rng.pick(b"abcXYZ")]).collect()) };
+        let mut msg = Msg { id: rng.u16(), flags: 0x8180, ..Default::default() };
+        msg.question.push(Question { name: qn.clone(), qtype: 1, qclass: 1 });
+        for i in 0..rng.range(1, 4) {
+            msg.sec[i % 3].push(Record { name: qn.clone(), rtype: T_A, class: 1, ttl: i as u32, rdata: RData::A([10, 0, 0, i as u8]) });
+        }
+        let lit = msg.encode_literal();
+        let x = if rng.chance(1, 2) { Compress::compress(&lit).unwrap_or(lit) } else { lit };
+        ctx.count("longest_name_packets");
+        // question() first, then the usual mix (which iterates and reads names)
+        one_with(ctx, &mut rng, &x, 6, Some(16));
     }
     // packets larger than the 8192-byte copy-out buffer
     let m = ctx.scaled(if ctx.tier == "thorough" { 20_000 } else if ctx.tier == "miri" { 1 } else { 800 });
